@@ -3,6 +3,7 @@
 //! evaluated on the same inputs.
 mod bytesgen;
 mod c15;
+mod cli;
 mod chars;
 mod core;
 mod docprops;
@@ -10,6 +11,7 @@ mod docs;
 mod xml;
 mod emit;
 mod json;
+mod ops;
 mod outp;
 mod rng;
 
@@ -74,7 +76,9 @@ fn main() {
     std::panic::set_hook(Box::new(|_| {})); // panics of the library are outcomes, not noise
     let mut ctx = Ctx { prop: prop.clone(), thorough, seed, out: out.clone(), rng: rng::Rng::new(seed), meta: vec![], args: rest, impl_failures: vec![], shards: vec![], verif: std::env::var("XSG_VERIF").unwrap_or("/verif".to_string()) };
     match prop.as_str() {
+        "C12" => cli::run(&mut ctx),
         "C15" => c15::run(&mut ctx),
+        "C16" => ops::run(&mut ctx),
         "C01" => docprops::c01(&mut ctx),
         "C03" => docprops::c03(&mut ctx),
         "C04" => docprops::c04(&mut ctx),
